@@ -247,6 +247,7 @@ struct pollfd_sim { int fd; short events; short revents; };
 struct Hooks {
   virtual ~Hooks() {}
   virtual void on_exec(Thread *, Proc *, ExecImage *) {}
+  virtual void on_child_unblock(Thread *, Proc *, uint64_t /*newly unblocked*/) {}
   virtual void on_fork_child_done(Thread *, Proc *) {}
   virtual void on_kill(Thread *, int pid, int sig, Proc *target) {}
   virtual void on_waitpid(Thread *, int pid, int options, Proc *target) {}
